@@ -5,6 +5,8 @@ import SameVerif.Spec.OracleC16
 import SameVerif.Model.Events
 import SameVerif.Model.Time
 import SameVerif.Spec.OracleC15
+import SameVerif.Model.Framer
+import SameVerif.Spec.Frame
 import Driver.Util
 /-
   samemodel: the executable side of the correspondence check.
@@ -195,6 +197,69 @@ def hhmmhash (d : Nat) : UInt64 := Id.run do
     | .error _ => h := fnvByte h 254
   return h
 
+-- ---------------------------------------------------------------- framer (C07)
+def showLink : LinkSt → String
+  | .noCarrier => "N"
+  | .searching => "S"
+  | .reading => "R"
+  | .burst b => s!"B:{hexOf b}"
+
+def hashLink (h : UInt64) : LinkSt → UInt64
+  | .noCarrier => fnvByte h 0
+  | .searching => fnvByte h 1
+  | .reading => fnvByte h 2
+  | .burst b => fnvByte (b.foldl fnvByte (fnvByte h 3)) 0xfe
+
+def hex8 (w : UInt32) : String :=
+  String.join ((beBytes w).map hexByte)
+
+def showFState : FState → String
+  | .idle => "idle"
+  | .search w c => s!"search {hex8 w} {c}"
+  | .read msg inv => s!"read {inv} {String.join (msg.map hexByte)}"
+
+def frAlpha : Array Byte := #[0xAB, 90, 67, 78, 45, 65, 0x00, 0xFF, 91, 66]
+
+def frRunVariant (c : FCfg) (pre tail : List Byte) (v : Nat) (h : UInt64) : UInt64 := Id.run do
+  let d := tail.length
+  let mut h := h
+  let mut st := FState.idle
+  let mut i := 0
+  for b in pre do
+    let (s', ls) := finput c st b (i == 0)
+    st := s'; h := hashLink h ls; i := i + 1
+  i := 0
+  for b in tail do
+    if v > d && v - d - 1 == i then
+      let (s', ls) := fend st
+      st := s'; h := hashLink h ls
+    let restart := (v ≥ 1 && v ≤ d && v - 1 == i) || (pre.isEmpty && i == 0)
+    let (s', ls) := finput c st b restart
+    st := s'; h := hashLink h ls; i := i + 1
+  return fnvStr h (showFState st)
+
+def framerhash (c : FCfg) (pre : List Byte) (depth lo hi : Nat) : UInt64 := Id.run do
+  let mut h := fnvInit
+  for idx in [lo:hi] do
+    let tail := (List.range depth).map (fun k => frAlpha[idx / 10 ^ (depth - 1 - k) % 10]!)
+    for v in [0:2 * depth + 1] do
+      h := frRunVariant c pre tail v h
+  return h
+
+def rle (xs : List String) : String :=
+  let groups := xs.foldl (fun (acc : List (String × Nat)) x =>
+    match acc with
+    | (y, n) :: rest => if x == y then (y, n + 1) :: rest else (x, 1) :: acc
+    | [] => [(x, 1)]) []
+  ",".intercalate (groups.reverse.map (fun (x, n) => s!"{x}*{n}"))
+
+def frStream (c : FCfg) (bs : List Byte) : String :=
+  let (_, outs, _) := bs.foldl (fun (acc : FState × List String × Bool) b =>
+    let (st, outs, first) := acc
+    let (s', ls) := finput c st b first
+    (s', showLink ls :: outs, false)) (FState.idle, [], true)
+  rle outs.reverse
+
 def vote3hash (lo hi : Nat) : UInt64 := Id.run do
   let mut h := fnvInit
   for i in [lo:hi] do
@@ -377,6 +442,12 @@ def handleSpec (name : String) (ins ans : List String) : String :=
     | _, _, _, _ => "FAIL unparsable answer"
   | "spec.c15.expired", [exp] =>
     verdict (ans == [exp]) "expiry must hold exactly when now is strictly later than issue + duration"
+  | "spec.c07.stream", [pb, ib, bs] =>
+    match pb.toNat?, ib.toNat?, unhex bs with
+    | some pb, some ib, some bs =>
+      verdict (ans == [rle ((Spec.specStates pb ib bs).map showLink)])
+        "link states are not those of the framing specification (burst must start at the first in-budget prefix window, keep bytes in order, end at the first over-budget invalid byte or the length cap; no prefix within 22 bytes: no burst)"
+    | _, _, _ => "bad-op"
   | _, _ => "bad-op"
 
 def handleOp (args : List String) : String :=
@@ -426,6 +497,18 @@ def handleOp (args : List String) : String :=
     match unhex seed, pos.toNat? with
     | some seed, some pos => s!"{(hdrnbhd seed pos).toNat}"
     | _, _ => "bad-op"
+  | ["framerhash", pb, ib, pre, depth, lo, hi] =>
+    match pb.toNat?, ib.toNat?, unhex pre, depth.toNat?, lo.toNat?, hi.toNat? with
+    | some pb, some ib, some pre, some depth, some lo, some hi => s!"{(framerhash ⟨pb, ib⟩ pre depth lo hi).toNat}"
+    | _, _, _, _, _, _ => "bad-op"
+  | ["prefixerr", w] =>
+    match w.toNat? with
+    | some w => s!"{prefixErrors (UInt32.ofNat w)}"
+    | none => "bad-op"
+  | ["fr.stream", pb, ib, bs] =>
+    match pb.toNat?, ib.toNat?, unhex bs with
+    | some pb, some ib, some bs => frStream ⟨pb, ib⟩ bs
+    | _, _, _ => "bad-op"
   | ["timehash", y] =>
     match y.toInt? with
     | some y => s!"{(timehash y).toNat}"
@@ -486,14 +569,39 @@ def handle (args : List String) : String :=
     else handleOp args
   | [] => "bad-op"
 
-partial def loop (h : IO.FS.Stream) (out : IO.FS.Stream) : IO Unit := do
+/-- driver state for the stateful suites -/
+structure DState where
+  fr : Option (FCfg × FState) := none
+
+def handleSt (st : DState) (args : List String) : DState × String :=
+  match args with
+  | ["fr.new", pb, ib] =>
+    match pb.toNat?, ib.toNat? with
+    | some pb, some ib => ({ st with fr := some (⟨pb, ib⟩, .idle) }, "ok")
+    | _, _ => (st, "bad-op")
+  | ["fr.in", b, restart] =>
+    match st.fr, b.toNat? with
+    | some (c, fs), some b =>
+      let (fs', ls) := finput c fs (UInt8.ofNat b) (restart == "1")
+      ({ st with fr := some (c, fs') }, s!"{showLink ls} | {showFState fs'}")
+    | _, _ => (st, "bad-op")
+  | ["fr.end"] =>
+    match st.fr with
+    | some (c, fs) =>
+      let (fs', ls) := fend fs
+      ({ st with fr := some (c, fs') }, s!"{showLink ls} | {showFState fs'}")
+    | none => (st, "bad-op")
+  | _ => (st, handle args)
+
+partial def loop (h : IO.FS.Stream) (out : IO.FS.Stream) (st : DState) : IO Unit := do
   let line ← h.getLine
   if line.isEmpty then return ()
   let args := (line.trimAscii.toString.splitOn " ").filter (· != "")
-  out.putStrLn (handle args)
-  loop h out
+  let (st', ans) := handleSt st args
+  out.putStrLn ans
+  loop h out st'
 
 def main : IO Unit := do
   let stdin ← IO.getStdin
   let stdout ← IO.getStdout
-  loop stdin stdout
+  loop stdin stdout {}
